@@ -182,6 +182,22 @@ fn check_history(ctx: &mut Ctx, rep: &mut Report, drv: &mut Driver, ops: &[Op], 
 	if !real.starts_with(&expect_prefix) {
 		rep.violate("C20:enumeration", "real DistinguishedName does not behave as an insertion-ordered map", format!("request: {}\nreal:     {}\nexpected: {} ...", line, real, expect_prefix));
 	}
+	// the rule every other runner uses for "the name that was asked for" (`Dn::settled`: the pushes
+	// settled by push's documented rule, kept apart from the container) is this same abstract
+	// replay — held against it, and through it against the model's enumeration, on every history
+	// that only pushes
+	if ops.iter().all(|o| matches!(o, Op::Push(..))) {
+		let pushes: Vec<(DnT, DnV)> = ops.iter().filter_map(|o| if let Op::Push(t, v) = o { Some((t.clone(), v.clone())) } else { None }).collect();
+		let settled = Dn(pushes).settled();
+		rep.count("settled_rule_compared");
+		let model_iter = model.find("(iter").map(|i| &model[i..]).unwrap_or("");
+		if settled.0 != abs || !model_iter.starts_with(&tagged("iter", &settled.0.iter().map(|(t, v)| list(&[t.sexp(), v.sexp()])).collect::<Vec<_>>())) {
+			rep.disagree("C20:settled-rule", "the harness's rule for the name asked for (Dn::settled) differs from the abstract replay or from the model's enumeration", format!("request: {}
+settled: {:?}
+abstract: {:?}
+model: {}", line, settled.0, abs, model));
+		}
+	}
 	// the encoded name, read by an X.501 reader of the harness' own: one RDN per attribute present,
 	// in the order of the enumeration, each with its type, string tag and value
 	{
@@ -438,6 +454,12 @@ pub fn run(ctx: &mut Ctx) -> Report {
 				ops.push(Op::Get(t.clone()));
 			}
 		}
+		check_history(ctx, &mut rep, &mut drv, &ops, &mut prev);
+	}
+	// histories that only push (how the other runners build the names they ask for)
+	for _ in 0..(if ctx.thorough { 3000 } else { 300 }) {
+		let len = rng.below(10) as usize;
+		let ops: Vec<Op> = (0..len).map(|_| Op::Push(rng.pick(&wide_types).clone(), rng.pick(&wide_vals).clone())).collect();
 		check_history(ctx, &mut rep, &mut drv, &ops, &mut prev);
 	}
 	rep.add("driver_requests", drv.requests);
